@@ -6,7 +6,7 @@ from ..hx import assume, require, reach, Skip
 MANIFEST = dict(
     engines="AB",
     technique="symbolic execution (CrossHair+z3) of Deb822 parsing/dumping over paragraph templates with a symbolic field name, first-line value or continuation line, for each of the six input forms, with and without clearsign armor and interleaved comments; regex-to-SMT lemmas (unbounded line length) that Policy-shaped lines are classified by _single/_multi/_multidata as the parser needs",
-    text="Engine A: for 1-2 paragraph templates with single-line, multi-line and empty-first-line values, one component symbolic (field name up to 2 chars from the Policy alphabet; first line or continuation line up to 2-3 chars from printable ASCII, tab and two non-ASCII letters), each input form (str, bytes, list of lines with/without newline, text and binary line iterator), plain or wrapped in PGP clearsign armor (also through Dsc/Changes), with or without '#' comment lines: the parsed items equal the template's (first line trimmed) and dump() re-parses to the same items. Engine B: NAME: VALUE lines are in full(_single), 'NAME:' in full(_multi), continuation lines in full(_multidata) and in neither of the others, never blank and never comments -- for lines of any length.",
+    text="Engine A: for 1-2 paragraph templates with single-line, multi-line and empty-first-line values, one component symbolic (field name up to 2 chars from the Policy alphabet; first line or continuation line up to 2-3 chars from printable ASCII, tab and two non-ASCII letters), each input form (str, bytes, list of lines with/without newline, text and binary line iterator), plain or wrapped in PGP clearsign armor (also through Dsc/Changes), with or without '#' comment lines: the parsed items equal the template's (first line trimmed) and dump() re-parses to the same items. Engine B: NAME: VALUE lines are in full(_single), 'NAME:' in full(_multi), continuation lines in full(_multidata) and in neither of the others, never blank and never comments -- for lines of any length. Also: the end of a continuation line (blanks allowed) symbolic, with and without armor.",
     note="Trusted: CrossHair str/bytes/codec/regex models (repaired; counterexamples replayed on CPython), z3 regex theory. Outside: the chardet fallback of _AutoDecoder (invalid UTF-8 is outside the domain), apt_pkg, real gpgv.",
 )
 
